@@ -92,6 +92,106 @@ class _Unsupported(Exception):
     pass
 
 
+def _boolish(e: ast.AST) -> bool:
+    if isinstance(e, ast.Constant):
+        return isinstance(e.value, bool)
+    if isinstance(e, ast.Compare):
+        return True
+    if isinstance(e, ast.UnaryOp) and isinstance(e.op, ast.Not):
+        return True
+    if isinstance(e, ast.BoolOp):
+        return all(_boolish(v) or isinstance(v, (ast.Attribute, ast.Name, ast.Call)) for v in e.values)
+    if isinstance(e, ast.Call) and isinstance(e.func, ast.Name) and e.func.id in ("isinstance", "issubclass", "hasattr", "bool", "any", "all", "callable"):
+        return True
+    return False
+
+
+def first_match_as_expr(node: ast.FunctionDef) -> Optional[ast.AST]:
+    """`for v in IT: if COND: return v` followed by `return DEFAULT`  is  `next((v for v in IT if COND), DEFAULT)`"""
+    body = _body_wo_doc(node)
+    if len(body) != 2 or not isinstance(body[0], ast.For) or not isinstance(body[1], ast.Return) or body[0].orelse:
+        return None
+    loop, dflt = body[0], body[1].value if body[1].value is not None else ast.Constant(value=None)
+    if len(loop.body) != 1 or not isinstance(loop.body[0], ast.If) or loop.body[0].orelse:
+        return None
+    iff = loop.body[0]
+    if len(iff.body) != 1 or not isinstance(iff.body[0], ast.Return) or iff.body[0].value is None:
+        return None
+    if not isinstance(loop.target, ast.Name):
+        return None
+    gen = ast.GeneratorExp(elt=copy.deepcopy(iff.body[0].value), generators=[ast.comprehension(target=ast.Name(id=loop.target.id, ctx=ast.Store()), iter=copy.deepcopy(loop.iter), ifs=[copy.deepcopy(iff.test)], is_async=0)])
+    return ast.fix_missing_locations(ast.Call(func=ast.Name(id="next", ctx=ast.Load()), args=[gen, copy.deepcopy(dflt)], keywords=[]))
+
+
+def predicate_as_expr(node: ast.FunctionDef) -> Optional[ast.AST]:
+    """A multi-statement *predicate* -- single-assignment locals, `if c: return <e>` guards, a final `return <e>`, every
+    returned value a boolean constant / comparison / not / attribute -- as ONE expression:
+        ext = get(ub); if ext is None: return False; return ext.flag      ==>   not (get(ub) is None) and get(ub).flag
+    so that it can stand wherever the call stood (inside any(..), as an assigned flag, as an `if` test)."""
+    body = _body_wo_doc(node)
+    env: Dict[str, ast.AST] = {}
+    params = {a.arg for a in node.args.args + node.args.kwonlyargs}
+
+    class Sub(ast.NodeTransformer):
+        def visit_Name(self, n):
+            if isinstance(n.ctx, ast.Load) and n.id in env:
+                return copy.deepcopy(env[n.id])
+            return n
+
+    def sub(e):
+        return Sub().visit(copy.deepcopy(e))
+
+    def ret_ok(e):
+        return _boolish(e) or isinstance(e, ast.Attribute)
+
+    def seq(stmts) -> Optional[ast.AST]:
+        if not stmts:
+            return None
+        st, rest = stmts[0], stmts[1:]
+        if isinstance(st, (ast.Assign, ast.AnnAssign)):
+            tg = st.targets[0] if isinstance(st, ast.Assign) and len(st.targets) == 1 else st.target if isinstance(st, ast.AnnAssign) else None
+            if not isinstance(tg, ast.Name) or getattr(st, "value", None) is None or tg.id in env or tg.id in params:
+                return None
+            if any(isinstance(x, (ast.Lambda, ast.NamedExpr, ast.Await, ast.Yield)) for x in ast.walk(st.value)):
+                return None
+            env[tg.id] = sub(st.value)
+            return seq(rest)
+        if isinstance(st, ast.Return):
+            if st.value is None or rest or not ret_ok(st.value):
+                return None
+            return sub(st.value)
+        if isinstance(st, ast.If):
+            if not (len(st.body) == 1 and isinstance(st.body[0], ast.Return) and st.body[0].value is not None and ret_ok(st.body[0].value)):
+                return None
+            c, a = sub(st.test), sub(st.body[0].value)
+            if st.orelse:
+                if rest:
+                    return None
+                b = seq(st.orelse)
+            else:
+                b = seq(rest)
+            if b is None:
+                return None
+            if isinstance(a, ast.Constant) and a.value is False:
+                return ast.BoolOp(op=ast.And(), values=[ast.UnaryOp(op=ast.Not(), operand=c), b])
+            if isinstance(a, ast.Constant) and a.value is True:
+                return ast.BoolOp(op=ast.Or(), values=[c, b])
+            if isinstance(b, ast.Constant) and b.value is False:
+                return ast.BoolOp(op=ast.And(), values=[c, a])
+            if isinstance(b, ast.Constant) and b.value is True:
+                return ast.BoolOp(op=ast.Or(), values=[ast.UnaryOp(op=ast.Not(), operand=c), a])
+            return ast.IfExp(test=c, body=a, orelse=b)
+        return None
+
+    if len(body) < 2:
+        return None
+    try:
+        e = seq(body)
+    except RecursionError:
+        return None
+    return ast.fix_missing_locations(e) if e is not None else None
+
+
 def _walk_loopfree(node):
     """nodes of a statement, not descending into nested loops / functions (whose break / continue are their own)"""
     todo = [node]
@@ -293,6 +393,25 @@ class Inliner:
             if not (_is_private(fi.name) or fi.parent is not None or is_prop):
                 continue
             sh = helper_shape(fi.node)
+            if sh is None and not is_prop and isinstance(fi.node, ast.FunctionDef) and not fi.node.decorator_list or sh is None and isinstance(fi.node, ast.FunctionDef) and all(isinstance(d, ast.Name) and d.id in ("staticmethod", "classmethod") for d in fi.node.decorator_list) and not is_prop:
+                fm = first_match_as_expr(fi.node)
+                if fm is not None and not (fi.node.args.vararg or fi.node.args.kwarg or fi.node.args.posonlyargs):
+                    ret = ast.Return(value=fm)
+                    ast.copy_location(ret, fi.node.body[-1])
+                    ast.fix_missing_locations(ret)
+                    fi.node.body = [ret]
+                    sh = helper_shape(fi.node)
+                    self.log.append(f"{q}: first-match loop is analysed as `{ast.unparse(fm)[:80]}`")
+            if sh in ("guards", "tail") and not is_prop:
+                pe = predicate_as_expr(fi.node)
+                if pe is not None:
+                    # a predicate with early returns is one condition: analysed as an expression helper
+                    ret = ast.Return(value=pe)
+                    ast.copy_location(ret, fi.node.body[-1])
+                    ast.fix_missing_locations(ret)
+                    fi.node.body = [ret]
+                    sh = "expr"
+                    self.log.append(f"{q}: predicate with early returns is analysed as the single condition `{ast.unparse(pe)[:80]}`")
             if sh is None:
                 if _generator_shape(fi.node) and not is_prop and not self._calls_itself(fi):
                     fi.node._mdsa_in_class = fi.cls is not None and fi.parent is None
@@ -1198,6 +1317,88 @@ def _simplify_inlined(program, touched: Set[str]) -> List[str]:
     return log
 
 
+_LEN_CHANGERS = {"append", "extend", "insert", "pop", "remove", "clear"}
+
+
+def _last_index_locals(program) -> List[str]:
+    """`newest = len(xs) - 1 ... xs[newest]`  is  `xs[-1]`  when `newest` is assigned once and nothing in the function changes
+    the length of xs (append / pop / del / re-assignment): the named position of the last element is the last element."""
+    log: List[str] = []
+    for fi in program.functions.values():
+        fn = fi.node
+        if not isinstance(fn, (ast.FunctionDef, ast.AsyncFunctionDef)):
+            continue
+        cands: Dict[str, Tuple[ast.stmt, str]] = {}
+        stores: Dict[str, int] = {}
+        for x in _walk_local(fn):
+            if isinstance(x, ast.Name) and isinstance(x.ctx, ast.Store):
+                stores[x.id] = stores.get(x.id, 0) + 1
+        for st in _walk_local(fn):
+            if isinstance(st, (ast.Assign, ast.AnnAssign)) and getattr(st, "value", None) is not None:
+                tg = st.targets[0] if isinstance(st, ast.Assign) and len(st.targets) == 1 else getattr(st, "target", None)
+                v = st.value
+                if isinstance(tg, ast.Name) and stores.get(tg.id) == 1 and isinstance(v, ast.BinOp) and isinstance(v.op, ast.Sub) and isinstance(v.right, ast.Constant) and v.right.value == 1 and isinstance(v.left, ast.Call) and isinstance(v.left.func, ast.Name) and v.left.func.id == "len" and len(v.left.args) == 1 and isinstance(v.left.args[0], (ast.Attribute, ast.Name)):
+                    cands[tg.id] = (st, ast.unparse(v.left.args[0]))
+        if not cands:
+            continue
+        for name, (st, seq) in cands.items():
+            changed = False
+            for x in _walk_local(fn):
+                if isinstance(x, ast.Call) and isinstance(x.func, ast.Attribute) and x.func.attr in _LEN_CHANGERS and ast.unparse(x.func.value) == seq:
+                    changed = True
+                if isinstance(x, (ast.Attribute, ast.Name)) and isinstance(getattr(x, "ctx", None), (ast.Store, ast.Del)) and ast.unparse(x) == seq:
+                    changed = True
+                if isinstance(x, ast.Delete) and any(isinstance(t, ast.Subscript) and ast.unparse(t.value) == seq for t in x.targets):
+                    changed = True
+            if changed:
+                continue
+            n = 0
+            for x in _walk_local(fn):
+                if isinstance(x, ast.Subscript) and isinstance(x.slice, ast.Name) and x.slice.id == name and ast.unparse(x.value) == seq:
+                    x.slice = ast.copy_location(ast.UnaryOp(op=ast.USub(), operand=ast.Constant(value=1)), x.slice)
+                    ast.fix_missing_locations(x)
+                    n += 1
+            if n:
+                log.append(f"{fi.qual}: `{seq}[{name}]` with `{name} = len({seq}) - 1` is read as `{seq}[-1]` ({n} use(s))")
+    return log
+
+
+def _bound_method_aliases(program) -> List[str]:
+    """`m = obj.path.method` ... `m(args)` with m assigned once and used only as a callee is `obj.path.method(args)`."""
+    log: List[str] = []
+    for fi in program.functions.values():
+        fn = fi.node
+        if not isinstance(fn, (ast.FunctionDef, ast.AsyncFunctionDef)):
+            continue
+        stores: Dict[str, int] = {}
+        for x in _walk_local(fn):
+            if isinstance(x, ast.Name) and isinstance(x.ctx, ast.Store):
+                stores[x.id] = stores.get(x.id, 0) + 1
+        params = {a.arg for a in fn.args.posonlyargs + fn.args.args + fn.args.kwonlyargs}
+        for st in list(_walk_local(fn)):
+            if not (isinstance(st, ast.Assign) and len(st.targets) == 1 and isinstance(st.targets[0], ast.Name) and isinstance(st.value, ast.Attribute)):
+                continue
+            name = st.targets[0].id
+            if stores.get(name) != 1 or name in params:
+                continue
+            v = st.value
+            b = v
+            while isinstance(b, ast.Attribute):
+                b = b.value
+            if not isinstance(b, ast.Name) or stores.get(b.id, 0) > 0 and b.id not in ("self", "cls"):
+                continue
+            loads = [x for x in ast.walk(fn) if isinstance(x, ast.Name) and x.id == name and isinstance(x.ctx, ast.Load)]
+            callees = {id(c.func) for c in ast.walk(fn) if isinstance(c, ast.Call) and isinstance(c.func, ast.Name) and c.func.id == name}
+            if not loads or any(id(x) not in callees for x in loads):
+                continue
+            for c in ast.walk(fn):
+                if isinstance(c, ast.Call) and isinstance(c.func, ast.Name) and c.func.id == name:
+                    c.func = ast.copy_location(copy.deepcopy(v), c.func)
+                    ast.fix_missing_locations(c)
+            log.append(f"{fi.qual}: `{name}(..)` with `{name} = {ast.unparse(v)}` is read as `{ast.unparse(v)}(..)`")
+    return log
+
+
 def apply(program) -> List[str]:
     known = load_known()
     if known is None:
@@ -1209,4 +1410,5 @@ def apply(program) -> List[str]:
         inl.drop_fully_inlined()
     sr = _scalar_replacement(program, known) if any(k.startswith("@") for k in known) else []
     sm = _simplify_inlined(program, inl.touched) if inl.touched else []
-    return log + inl.log + sr + sm
+    li = _last_index_locals(program) + _bound_method_aliases(program)
+    return log + inl.log + sr + sm + li
